@@ -33,7 +33,39 @@ func TestC03Mixed(t *testing.T) {
 	core.Run(t, core.Opts{ID: "C03", Quick: 3000, Thorough: 100000}, func(c *core.Case) {
 		p := c03NewPair(c)
 		start := uint32(0)
-		if c.Weighted("ab.age", 2, 3) == 1 {
+		age := c.Weighted("ab.age", 2, 3, 2)
+		models := [2]*c03Model{newC03Model(), newC03Model()}
+		names := [2]string{"regular", "priority"}
+		var all []*c03Sealed
+		var hist []string
+		if age == 2 {
+			// The pair has wrapped once already: five frames across the first wrap,
+			// delivered in order (they stay available for later re-deliveries), then
+			// a long time passes and the numbering stands before its second wrap.
+			h := state.EncryptionSessionTestHelper{EncryptionSession: p.sAB.Encryption()}
+			h.ReglSetOut(0xFFFF_FFFF - 2)
+			for k := 0; k < 5; k++ {
+				f, err := p.builder.NewFrameV1(p.pa.ID.Addr.IP, p.pb.ID.Addr.IP, frame.NetworkTraffic, nil, []byte(fmt.Sprintf("first-wrap-%d", k)), nil)
+				if err != nil {
+					c.Fatalf("new frame: %v", err)
+				}
+				if err := f.Seal(p.sAB); err != nil {
+					c.Fatalf("seal: %v", err)
+				}
+				data, _ := f.FrameDataWithMargins(0, 0)
+				sd := &c03Sealed{data: append([]byte(nil), data...), cls: 0}
+				sd.seq = binary.BigEndian.Uint32(sd.data[8:12])
+				f.ReturnToPool()
+				if err := c03UnsealCopy(p.builder, sd.data, p.sBA); err != nil {
+					c.Fatalf("in-order frame %#x across the first wrap rejected: %v", sd.seq, err)
+				}
+				all = append(all, sd)
+				models[0].accepted[sd.seq] = true
+			}
+			hist = append(hist, "5 frames across the first wrap")
+			c.Class("mixed/second-wrap-ahead")
+		}
+		if age >= 1 {
 			start = 0xFFFF_FF00 - 3 + uint32(c.Int("ab.at", 0, 120))
 			h := state.EncryptionSessionTestHelper{EncryptionSession: p.sAB.Encryption()}
 			h.ReglSetOut(start)
@@ -44,10 +76,6 @@ func TestC03Mixed(t *testing.T) {
 			h := state.EncryptionSessionTestHelper{EncryptionSession: p.sBA.Encryption()}
 			h.ReglSetOut(0xFFFF_FFFF - uint32(c.Int("ba.at", 1, 6))) // at least one frame before the wrap: a receiver that saw none cannot know of it
 		}
-		models := [2]*c03Model{newC03Model(), newC03Model()}
-		names := [2]string{"regular", "priority"}
-		var all []*c03Sealed
-		var hist []string
 		revSent, revWrapped := 0, false
 
 		seal := func(cls int) *c03Sealed {
@@ -89,7 +117,7 @@ func TestC03Mixed(t *testing.T) {
 		n := c.Int("len", 1, 60)
 		regular := 0
 		for i := 0; i < n; i++ {
-			op := c.Weighted("op", 25, 20, 8, 8, 25, 14)
+			op := c.Weighted("op", 25, 20, 8, 8, 25, 14, 5)
 			if regular >= 100 && (op == 0 || op == 2) {
 				op = 1
 			}
@@ -124,6 +152,20 @@ func TestC03Mixed(t *testing.T) {
 				} else {
 					deliver(all[c.Pick("again.which", len(all))], "again")
 				}
+			case 6: // a key setup that fails (unusable share) at either router: nothing changes
+				share := make([]byte, 32)
+				if c.Bool("badkx.short") {
+					share = share[:c.Int("badkx.len", 0, 31)]
+				}
+				who, sess := "receiver", p.sBA
+				if c.Bool("badkx.sender") {
+					who, sess = "sender", p.sAB
+				}
+				if _, _, err := sess.Encryption().InitKeyServer(share, "ECDH-X25519/BLAKE3"); err == nil {
+					c.Fatalf("a key exchange with an all-zero share of %d bytes succeeded", len(share))
+				}
+				hist = append(hist, "refused key exchange at the "+who)
+				c.Class("mixed/refused-key-exchange-in-between")
 			default: // b sends traffic of its own to a
 				k := c.Int("rev.n", 1, 8)
 				for j := 0; j < k; j++ {
